@@ -23,6 +23,8 @@ def key(e):
 def cover(e):
     fam = e.get("fam", e.get("prop"))
     cs = ["fam:" + fam]
+    if fam == "cloneg":
+        cs.append("cloneg:%s:%s" % (e["ty"], e["op"]))
     if fam == "clone":
         cs.append("clone:" + e["op"])
         if any(len(r["m"]) > 16 for r in e["regs"]) and any(len(r["m"]) <= 16 for r in e["regs"]):
@@ -52,7 +54,7 @@ def run(ctx):
             tr = ctx.drive(bins[prop.lower()], ["--cases", p, "--n", "0"], "trace-replay.ndjson")
         else:
             # float / ratio / modular / clone events are reproduced by re-running the seeded driver
-            what = ["clone"] if case.get("fam") == "clone" else []
+            what = ["clone"] if case.get("fam") in ("clone", "cloneg") else []
             tr = ctx.drive(bins["c15"], what + ["--seed", str(v["seed"]), "--n", str(ctx.pick(1500, 12000))], "trace-replay.ndjson")
         ctx.monitor("replay", "C15", "Trace_C15.tla", "Trace_C15.cfg", tr)
         return ctx.finish()
@@ -91,7 +93,9 @@ def run(ctx):
         extra={"forms_exercised": seen, "inventory_forms": total},
         required_cover=["fam:C01", "fam:C02", "fam:C09", "fam:float", "fam:rbig", "fam:relaxed", "fam:mod", "fam:clone",
                         "clone:clone", "clone:clone_from", "clone:sqr_self", "clone:sub_self", "clone:inline-and-heap",
-                        "clone_from:to-heap", "clone_from:to-inline", "all-forms-panic"])
+                        "clone_from:to-heap", "clone_from:to-inline", "all-forms-panic",
+                        "cloneg:RBig:clone_from", "cloneg:Relaxed:clone_from", "cloneg:FBig:clone_from", "cloneg:DBig:clone_from",
+                        "cloneg:RBig:clone", "cloneg:FBig:mut"])
 
 
 def selftest(ctx):
